@@ -209,6 +209,9 @@ SOLVE_CASES = [
     dict(L=[1.0, 2.0], step="block", second="new_point", two=2),
     dict(L=[1.0, 2.0], step="gd", second="same", two=3),
     dict(L=[1.0, 2.0, 4.0], step="block", second="new_combo", two=3),
+    # a one-block partition declared BEFORE a several-block one (and after it)
+    dict(L=[1.0], step="gd", second="new_point", two=2),
+    dict(L=[1.0, 2.0], step="gd", second="none", two=1),
 ]
 
 
